@@ -32,13 +32,18 @@ func NewFlowAssets(source assets.Source, migrationConfig *migrations.Config) flo
 
 // Get returns the flow with the given UUID
 func (a *flowAssets) Get(uuid assets.FlowUUID) (flows.Flow, error) {
+	verifHook("enter", a, string(uuid))
 	a.mutex.Lock()
 	defer a.mutex.Unlock()
+	verifHook("acquired", a, string(uuid))
+	defer verifHook("release", a, string(uuid))
 
 	flow := a.cache[uuid]
 	if flow != nil {
+		verifHook("hit", a, string(flow.UUID()))
 		return flow, nil
 	}
+	verifHook("miss", a, string(uuid))
 
 	asset, err := a.source.FlowByUUID(uuid)
 	if err != nil {
@@ -51,21 +56,27 @@ func (a *flowAssets) Get(uuid assets.FlowUUID) (flows.Flow, error) {
 	}
 
 	a.cache[flow.UUID()] = flow
+	verifHook("stored", a, string(flow.UUID()))
 	return flow, nil
 }
 
 // FindByName tries to find a flow with the given name
 func (a *flowAssets) FindByName(name string) (flows.Flow, error) {
+	verifHook("enter", a, name)
 	a.mutex.Lock()
 	defer a.mutex.Unlock()
+	verifHook("acquired", a, name)
+	defer verifHook("release", a, name)
 
 	// check the cache in a stable order in case several flows have names which differ only by case
 	for _, uuid := range slices.Sorted(maps.Keys(a.cache)) {
 		flow := a.cache[uuid]
 		if strings.EqualFold(flow.Name(), name) {
+			verifHook("hit", a, string(flow.UUID()))
 			return flow, nil
 		}
 	}
+	verifHook("miss", a, name)
 
 	asset, err := a.source.FlowByName(name)
 	if err != nil {
@@ -78,5 +89,6 @@ func (a *flowAssets) FindByName(name string) (flows.Flow, error) {
 	}
 
 	a.cache[flow.UUID()] = flow
+	verifHook("stored", a, string(flow.UUID()))
 	return flow, nil
 }
